@@ -325,7 +325,7 @@ class Run:
         recs_needed = []
         for (ln, why) in rejected:
             recs_needed.append(ln)
-        recs = read_records(path, recs_needed[:40])
+        recs = read_records(path, recs_needed[:400])
         runs_bad = set()
         for (ln, why) in rejected:
             rec = recs.get(ln)
@@ -335,7 +335,9 @@ class Run:
             if hard:
                 nviol += 1
                 runs_bad.add(runid)
-                if nviol <= 20:
+                # (no cap here: violations explained by known findings are filtered in finish(); a cap at
+                # this point would let many known-finding hits crowd out an unexplained one)
+                if nviol <= 400:
                     self.violations.append({
                         "leg": name,
                         "what": "event %d (run %s, %s) rejected by %s: %s" % (
